@@ -142,7 +142,11 @@ def explore_rich(ctx, cases, label="oracle-only: "):
                     return False
                 return any(c09.prov_key(q["kind"]) == prov for q in c09.my_problems(w2, C15_KINDS))
             small = dict(c09.shrink_case(case, pred), rich=True)
-            key = c09.final_key(prov, small)
+            try:
+                tags = K.run_case(small, trace=False).tags
+            except (K.HarnessBug, core.InfraError):
+                tags = ()
+            key = c09.final_key(prov, small, tags)
             provs[prov] = key
             ctx.violation(key, f"{label}{p['kind']}", small, expected=EXPECTED, observed=p["detail"],
                           theorem="Asynkit.C15.throw_exactly_once / interrupt_runs_next")
